@@ -56,12 +56,12 @@ BUDGET = {"quick": {"worker_timeout": 900, "case_timeout": 120}, "thorough": {"w
 REQUIRED_COUNTERS = {
     "quick": {"path_exacteig": 1500, "path_custom_exacteig": 500, "path_davidson": 900, "davidson_exit_converged": 80,
               "davidson_exit_fullspace": 800, "davidson_illcond_qr": 10, "tallqr_with_M": 400, "cut_straddles_group": 300,
-              "slice_lowest": 900, "slice_uppest": 900, "svd_tall": 150, "svd_wide": 150, "svd_square": 150, "svd_full_k": 300,
+              "slice_lowest": 900, "slice_uppest": 900, "svd_tall": 150, "svd_wide": 150, "svd_square": 150, "svd_hermitian_indefinite": 80, "svd_full_k": 300,
               "with_M": 1000, "complex_cases": 600, "batched_M_larger_than_A": 80, "groups_compared": 10000,
               "groups_cut_or_unisolated": 800},
     "thorough": {"path_exacteig": 30000, "path_custom_exacteig": 10000, "path_davidson": 18000, "davidson_exit_converged": 1500,
                  "davidson_exit_fullspace": 16000, "davidson_illcond_qr": 200, "tallqr_with_M": 8000, "cut_straddles_group": 6000,
-                 "slice_lowest": 18000, "slice_uppest": 18000, "svd_tall": 3000, "svd_wide": 3000, "svd_square": 3000,
+                 "slice_lowest": 18000, "slice_uppest": 18000, "svd_tall": 3000, "svd_wide": 3000, "svd_square": 3000, "svd_hermitian_indefinite": 1600,
                  "svd_full_k": 6000, "with_M": 20000, "complex_cases": 12000, "batched_M_larger_than_A": 1500,
                  "groups_compared": 200000, "groups_cut_or_unisolated": 16000},
 }
@@ -173,6 +173,8 @@ def cases(seed, tier):
         d["dtype"] = "float64" if (d["method"] == "davidson" or rng.random() < 0.6) else "complex128"
         d["smin"] = rng.choice([0.1, 0.5, 1.0])
         d["kappa"] = rng.choice([2.0, 5.0, 10.0])
+        # square operators: every third one is Hermitian (and flagged so) with an INDEFINITE spectrum - its singular values are |eigenvalues|
+        d["herm"] = bool(shape == "square" and rng.random() < 0.4)
         out.append(d)
     return out
 
@@ -655,9 +657,16 @@ def run_svd(desc, obs):
         s = torch.tensor([desc["smin"] * v for v in gen.spectrum("spd", p, desc["kappa"], rng)], dtype=torch.float64).to(dt)
         u = gen.rand_unitary(m, (), dt, tgen)[:, :p]
         v = gen.rand_unitary(n, (), dt, tgen)[:, :p]
+        if desc.get("herm"):
+            signs = torch.tensor([rng.choice([-1.0, 1.0]) for _ in range(p)], dtype=torch.float64).to(dt)
+            v = u * signs                                   # A = U diag(+-s) U^H
         mats.append((u * s) @ v.transpose(-2, -1).conj())
     A = torch.stack(mats).reshape(*BA, m, n) if BA else mats[0]
     counter = {}
+    if desc.get("herm"):
+        A = 0.5 * (A + A.transpose(-2, -1).conj())
+        desc = dict(desc, opA=rng.choice(["dense_herm", "herm_mv", "herm_all"]))
+        obs.count("svd_hermitian_indefinite")
     try:
         Aop = gen.leaf_operator(desc["opA"], A, counter)
     except Exception as e:
